@@ -73,6 +73,10 @@ class SymExec:
             raise TranslationError("unknown name %s" % node.id)
         if isinstance(node, ast.Tuple):
             return tuple(self.ev(e, env) for e in node.elts)
+        if isinstance(node, ast.Dict):
+            if not all(isinstance(k, ast.Constant) and isinstance(k.value, str) for k in node.keys):
+                raise TranslationError("dictionary with non-literal keys")
+            return Opaque({k.value: self.ev(v, env) for k, v in zip(node.keys, node.values)})
         if isinstance(node, ast.UnaryOp):
             v = self.ev(node.operand, env)
             if isinstance(node.op, ast.USub):
@@ -106,6 +110,8 @@ class SymExec:
                 base = None
             if base in self.handlers:
                 return self.handlers[base](self, [], {}, env)
+            if base is not None and base in env:
+                return env[base]
             v = self.ev(node.value, env)
             if node.attr == "T":
                 return v
@@ -206,6 +212,8 @@ class SymExec:
     def assign(self, target, value, env):
         if isinstance(target, ast.Name):
             env[target.id] = value
+        elif isinstance(target, ast.Attribute) and isinstance(target.value, ast.Name) and target.value.id == "self":
+            env["self." + target.attr] = value  # object state written by a method: visible to later reads of self.<attr>
         elif isinstance(target, ast.Tuple):
             if not isinstance(value, tuple) or is_vec(value) or is_cond(value) or (value and isinstance(value[0], str)) or len(value) != len(target.elts):
                 raise TranslationError("tuple assignment of a non-tuple")
